@@ -17,14 +17,22 @@ func init() {
 			"(2) StartCommand's order: ¬HasAny → markDisrupted → (mark error tolerated only for delete-only commands with ≥1 marked candidate) → candidates narrowed to the marked ones → createReplacementNodeClaims==nil → MarkForDeletion → enqueue under the queue lock; no MarkForDeletion on an error edge; " +
 			"(3) Queue.Reconcile: an unrecoverable error untaints (RequireNoScheduleTaint(false)), clears DisruptionReason and completes the command, a recoverable one requeues without completing; Succeeded is set only when waitOrTerminate returned nil; CompleteCommand unmarks for deletion unless Succeeded and deletes every candidate key; " +
 			"(4) the disruption controller clears stale taints/conditions of nodes that are neither queued nor marked for deletion before any method runs (restart/abort recovery); " +
-			"(5) Queue.ProviderIDToCommand is written only by StartCommand/CompleteCommand under the RWMutex; MarkForDeletion/UnmarkForDeletion have exactly those callers.",
-		NotCovered: []string{"intermediate states between two API calls under a crash are repaired by row (4): that the repair exists and runs first is decided, not that every intermediate state is benign", "provider-side behaviour", "the HasAny check and the insertion are separate critical sections (serialised by the singleton controller, not by the lock)"},
+			"(5) Queue.ProviderIDToCommand is written only by StartCommand/CompleteCommand under the RWMutex; MarkForDeletion/UnmarkForDeletion have exactly those callers; " +
+			"(6) (sweep triage) the wait loop of waitOrTerminate is left towards the Delete only exhausted or with an error recorded (DOM1b); a failed candidate Delete is recorded on its failing edge (POST7); HasAny answers true only for a queued id (MPT4b); " +
+			"markDisrupted records a failed taint call in the candidate's slot and returns the combination of all slots (POST8, PROV7); CreateNodeClaims records a failed Create, returns the combination, stores each created name at the index of its claim, and createReplacementNodeClaims gives Replacements[i] the i-th created name (POST9, PROV7, PROV8); " +
+			"IsUnrecoverableError answers false only for nil or an error not wrapping *UnrecoverableError (MPT5); StateNode.MarkedForDeletion answers true only for the in-memory mark or a node really being deleted (MPT6); " +
+			"(7) lower layer of the rollback and of the restart recovery: state.RequireNoScheduleTaint(…, false, nodes) == nil means every listed node with Node and NodeClaim went through get → filter out the taints matching DisruptedNoScheduleTaint → patch against the copy taken before the edit (nil without a patch only if nothing changed or the node is being deleted), failures recorded per node and returned combined (UNT1–7b); " +
+			"state.ClearNodeClaimsCondition(…, t, nodes) == nil means the same for clearing condition t on each initialized node's freshly read NodeClaim with a status patch (CLR1–6b).",
+		NotCovered: []string{"that a failed DisruptionReason patch in markDisrupted is recorded (no clause of the statement depends on the condition being set, only on its removal)", "Command.CreationTimestamp being set before StartCommand (a zero timestamp makes every command time out on its first reconcile: progress only)", "the deferred timeout wrapper also wraps a nil result: a command whose replacements all turn Initialized on the first reconcile after the deadline still deletes its candidates and is then rolled back as timed out (observed while reading, not decided by any row)","intermediate states between two API calls under a crash are repaired by row (4): that the repair exists and runs first is decided, not that every intermediate state is benign", "provider-side behaviour", "the HasAny check and the insertion are separate critical sections (serialised by the singleton controller, not by the lock)"},
 		Rules:      c08Rules,
 	})
 }
 
 func c08Rules(tier string) []Rule {
-	return append(c08RulesBase(tier),
+	rs := append(c08RulesBase(tier), c08SweepRules()...)
+	rs = append(rs, untaintRules("C08.UNT")...)
+	rs = append(rs, clearConditionRules("C08.CLR")...)
+	return append(rs,
 		// every command waits for its *own* replacements: the Replacement records handed to a Command are built in the
 		// iteration that builds the Command (a record shared by several commands latches Name / Initialized for all)
 		core.Custom{ID: "C08.PROV6", Kind: "PROV", Run: func(w *core.World, id string) []core.Result {
@@ -242,4 +250,116 @@ func c08Timeout(w *core.World, id string) []core.Result {
 	// and conversely the timeout branch does set the error
 	p := POST{ID: id, Fn: wot, FromLit: `+^\^\(\*disr\.Queue\)\.GetMaxRetryDuration\(\$0\) < iface:\(k8s\.io/utils/clock\.PassiveClock\)\.Since\(`, Must: []string{`^store \^&local<error> = `}}
 	return append(rs, p.Check(w)...)
+}
+
+// c08SweepRules: facts the statement relies on that no row stated before the triage of the mutation sweep over the anchored
+// files (variants and controls: selftest/mutants_extra/tC08.py).
+func c08SweepRules() []Rule {
+	const (
+		wot    = "(*disr.Queue).waitOrTerminate"
+		mark   = "(*disr.Queue).markDisrupted"
+		crepl  = "(*disr.Queue).createReplacementNodeClaims"
+		cncs   = "(*prov.Provisioner).CreateNodeClaims"
+		hasAny = "(*disr.Queue).HasAny"
+	)
+	create := `\(\*prov\.Provisioner\)\.Create\(\^\$0, \^\$2\[\$0\], \^\$3\)`
+	return []Rule{
+		// DOM1 reads "Combine(waitErrs) == nil" as "every replacement is Initialized". That holds only if the wait loop looked at
+		// every replacement: the Delete is reached either over the loop's exhausted edge or after an error was recorded (a
+		// `break` out of the loop on an already-initialized replacement leaves the rest unexamined with nil slots).
+		DOM{ID: "C08.DOM1b", Fn: wot, Sink: ncDelete, Gates: gates(
+			G(`-^\(phi\(-1\|\(phi↺ \+ 1\)\) \+ 1\) < len\(\$2\.Replacements\)$`, `instr:^store makeslice<\[\]error>\[.*\] = \S+\(`),
+		), Note: "the wait loop leaves early only with an error recorded"},
+		// a failed candidate Delete is recorded on the failing edge (PROV2 only finds the store): otherwise the command is
+		// completed as Succeeded with a candidate that was never deleted and stays tainted and marked for ever
+		POST{ID: "C08.POST7", Fn: wot, FromLit: `-^` + retryOnErr + ` == nil$`, Must: []string{`^store \^makeslice<\[\]error>\[\$0\] = cr/client\.IgnoreNotFound\(`},
+			Note: "the edge on which the candidate Delete failed stores the worker's error"},
+		// HasAny answers true only for an id that is in the queue (MPT4/IMPL1 state the other direction): "always true" makes
+		// every node look queued — nothing is ever disrupted and, worse, the restart recovery (MPT3b) never finds an outdated
+		// node, so taints left by a crash stay
+		MPT{ID: "C08.MPT4b", Fn: hasAny, Ret: core.RetTrue, Gates: gates(G(`+^\$0\.ProviderIDToCommand\[\$1\[.*\]\]#1$`))},
+		// markDisrupted: a candidate whose taint call failed gets an error in its slot (DOM6 keeps exactly the candidates with a
+		// nil slot; DOM4 lets StartCommand go on only for markDisrupted#1 == nil or a delete-only command), and the error handed
+		// to StartCommand is the combination of all slots
+		workerRecordsFailure("C08.POST8", mark, `state\.RequireNoScheduleTaint\(\^\$0\.kubeClient, true, .*\)`, "a candidate that could not be cordoned is not reported as marked"),
+		core.Custom{ID: "C08.PROV7", Kind: "PROV", Run: func(w *core.World, id string) []core.Result {
+			return append(returnsCombinedErrors(w, id, mark), returnsCombinedErrors(w, id, cncs)...)
+		}},
+		// CreateNodeClaims (what MPT0b's `#1 == nil` means): a failed Create is recorded in the worker's slot, the created name
+		// goes into the slot of the claim it was created for
+		workerRecordsFailure("C08.POST9", cncs, create+`#1`, "a replacement that could not be created fails the batch"),
+		core.Custom{ID: "C08.PROV8", Kind: "PROV", Run: func(w *core.World, id string) []core.Result {
+			rs := core.InstrPresent(w, id, "PROV", cncs, `^store \^makeslice<\[\]string>\[\$0\] = `+create+`#0$`, 1, "the name of a created NodeClaim is stored at the index of the claim it was created for")
+			rs = append(rs, core.InstrPresent(w, id, "PROV", cncs, `^return makeslice<\[\]string>, `, 1, "the names handed back are the workers' slots")...)
+			return append(rs, c08ReplacementNames(w, id, crepl)...)
+		}},
+		// IsUnrecoverableError answers false only for nil or for an error that does not wrap *UnrecoverableError: a classifier
+		// that misses the class requeues a timed-out / orphaned command for ever (MPT2c–e never run, the candidates stay tainted)
+		MPT{ID: "C08.MPT5", Fn: "disr.IsUnrecoverableError", Ret: core.RetFalse, Gates: gates(
+			G(`+^\$0 == nil$`, `-^errors\.As\(\$0, <\*\*disr\.UnrecoverableError>.*\)$`),
+		)},
+		// after the rollback the node counts again: MarkedForDeletion answers true only for the in-memory mark (cleared by
+		// UnmarkForDeletion, POST4) or a node that is really being deleted
+		MPT{ID: "C08.MPT6", Fn: "(*state.StateNode).MarkedForDeletion", Ret: core.RetTrue, Gates: gates(
+			G(`+^\$0\.markedForDeletion$`, `+^\(\*state\.StateNode\)\.Deleted\(\$0\)$`),
+		)},
+	}
+}
+
+// c08ReplacementNames (part of C08.PROV8): createReplacementNodeClaims stores, into Replacements[i].Name, the i-th name
+// CreateNodeClaims returned — waitOrTerminate fetches each replacement by that name (PROV1), so a shifted or constant index
+// makes the command wait for the wrong (or for one single) NodeClaim.
+func c08ReplacementNames(w *core.World, id, fnName string) []core.Result {
+	fn := w.Fn(fnName)
+	if fn == nil {
+		return []core.Result{core.Anchor(id, "PROV", fnName)}
+	}
+	construct := "PROV:" + fnName + ":Replacements[i].Name=names[i]"
+	storeRe := regexp.MustCompile(`^store \$2\.Replacements\[.*\]\.Name = `)
+	namesRe := regexp.MustCompile(`^\(\*prov\.Provisioner\)\.CreateNodeClaims\(.*\)#0$`)
+	index := func(v ssa.Value) (base, idx ssa.Value) {
+		for i := 0; i < 6 && v != nil; i++ {
+			switch x := v.(type) {
+			case *ssa.UnOp:
+				v = x.X
+			case *ssa.FieldAddr:
+				v = x.X
+			case *ssa.IndexAddr:
+				return x.X, x.Index
+			case *ssa.Index:
+				return x.X, x.Index
+			default:
+				return nil, nil
+			}
+		}
+		return nil, nil
+	}
+	var out []core.Result
+	n := 0
+	w.WithHelpers(fn, func(f *ssa.Function, _ ssa.Instruction) {
+		for _, s := range w.Sites(f, storeRe, true) {
+			st, ok := s.(*ssa.Store)
+			if !ok {
+				continue
+			}
+			n++
+			_, di := index(st.Addr)
+			sb, si := index(st.Val)
+			switch {
+			case di == nil || si == nil || sb == nil:
+				out = append(out, core.Bad(id, "PROV", construct, w.InstrPos(s), "the replacement's name is `"+clipStr(w.Render(st.Val), 100)+"`: not an indexed element of the created names (idiom not recognised)"))
+			case !namesRe.MatchString(w.Render(sb)):
+				out = append(out, core.Bad(id, "PROV", construct, w.InstrPos(s), "the replacement's name is taken from `"+clipStr(w.Render(sb), 100)+"`, expected the names CreateNodeClaims returned"))
+			case di != si && w.Render(di) != w.Render(si):
+				out = append(out, core.Bad(id, "PROV", construct, w.InstrPos(s), "Replacements["+clipStr(w.Render(di), 40)+"].Name is set to names["+clipStr(w.Render(si), 40)+"]: the command would wait for another NodeClaim than the one created for this replacement"))
+			}
+		}
+	})
+	if n == 0 {
+		out = append(out, core.Bad(id, "PROV", construct, w.Pos(fn.Pos()), "vacuous: no store to Replacements[i].Name in "+fnName+" (1 confirmed by hand)"))
+	}
+	if len(out) == 0 {
+		out = append(out, core.OK(id, "PROV", construct, n, "each replacement is given the name created for it"))
+	}
+	return out
 }
